@@ -597,6 +597,14 @@ func depSearch(root ssa.Value, vm VM, control bool) bool {
 			return true
 		}
 		switch x := v.(type) {
+		case *ssa.Alloc:
+			for _, st := range storesTo(x) {
+				push(st.Val)
+			}
+			for _, st := range partStoresTo(x) {
+				push(st.Val)
+			}
+			continue
 		case *ssa.Phi:
 			for i, e := range x.Edges {
 				push(e)
@@ -1219,4 +1227,22 @@ func phiEdgesNeed(p *ssa.Phi, vm VM, fm FM) (int, int) {
 		}
 	}
 	return n, ok
+}
+
+// sameValue: the two values are the same SSA value after stripping
+// conversions, or two loads of the same local cell / captured variable.
+func sameValue(a, b ssa.Value) bool {
+	a, b = strip(a), strip(b)
+	if a == b {
+		return true
+	}
+	ua, ok1 := a.(*ssa.UnOp)
+	ub, ok2 := b.(*ssa.UnOp)
+	if ok1 && ok2 && ua.Op == token.MUL && ub.Op == token.MUL && ua.X == ub.X {
+		switch ua.X.(type) {
+		case *ssa.FreeVar, *ssa.Alloc:
+			return true
+		}
+	}
+	return false
 }
